@@ -38,6 +38,8 @@ func main() {
 		famHist(os.Args[2])
 	case "c09":
 		famC09(os.Args[2])
+	case "c11":
+		famC11(os.Args[2])
 	default:
 		fmt.Println("unknown family", os.Args[1])
 		os.Exit(2)
